@@ -206,10 +206,12 @@ Definition defaults_ok (c : cspec) : bool :=
                     && forallb (fun r => let '(o, b, v) := r in default_value ms o b v) (cs_defaults c)
   | None => false
   end.
-(* every data member of a wire class has a default member initialiser: a default-constructed header has no indeterminate byte *)
+(* every byte of a wire class is covered by a data member that has a default member initialiser (for a union: by its initialised
+   alternative): a default-constructed header has no indeterminate byte *)
 Definition fully_initialised (cls : string) : bool :=
   match record_of cls with
-  | Some (size, ms) => forallb (fun m => let '(_, _, _, d) := m in match d with Some _ => true | None => false end) ms
-                       && forallb (fun k => existsb (fun m => let '(_, o, s, _) := m in (o <=? k) && (k <? o + s)) ms) (map Z.of_nat (seq 0 (Z.to_nat size)))
+  | Some (size, ms) =>
+    forallb (fun k => existsb (fun m => let '(_, o, s, d) := m in (o <=? k) && (k <? o + s) && match d with Some _ => true | None => false end) ms)
+            (map Z.of_nat (seq 0 (Z.to_nat size)))
   | None => false
   end.
